@@ -142,7 +142,7 @@ def p1(ctx: Ctx):
             ctx.ob(f"{p.cls}<emit", False, f"pass `{p.cls}` runs after the program text was produced", file=COMPILER_REL, line=p.line, props=["C05"])
 
 
-@rule("P10", "EXCLUSION-SETS: the string allocator is told about every DIMmed name, the implicit-array pass about the DIMmed arrays", ["C10"], floor=2)
+@rule("P10", "EXCLUSION-SETS: the string allocator is told about every DIMmed name, the implicit-array pass about the DIMmed arrays", ["C10", "C11"], floor=2, default_props=["C10"])
 def p10(ctx: Ctx):
     P = pipeline(ctx)
     py = P.py
@@ -227,6 +227,8 @@ def p10(ctx: Ctx):
         file=COMPILER_REL,
         line=al.ctor.lineno,
         witness="" if ok else "10 DIM A$ / 20 A$=\"X\" with -s 80",
+        # the second declaration appears only under a non-default string size: the size option adds a line it does not document
+        props=["C10", "C11"],
     )
     dl, src2, attr2 = source_of("DeclareImplicitArraysVisitor", "dimmed_var_names")
     kind2 = collects(src2.cls) if src2 is not None else "nothing"
@@ -278,6 +280,27 @@ P2_REQUIRED = {
     "procname": {"set_procname", "get_procedure_and_dependencies"},
     "add_suffix": {"append_lines"},
 }
+
+
+@rule("P1b", "FILTER-SCOPE: the label filter never sees a line the tool generated: either the program's visit() walks the user's lines only, or the filter pass has run before the dispatcher lines are appended", ["C06", "C11"], floor=1)
+def p1b(ctx: Ctx):
+    P = pipeline(ctx)
+    py = P.py
+    pv = py.resolve_method("BasicProg", "visit")
+    ap = py.resolve_method("BasicProg", "append_lines")
+    ctx.need(pv is not None and ap is not None, "BasicProg", "visit() / append_lines() not found")
+    # where append_lines keeps the generated lines
+    kept = {x.attr for c in ast.walk(ap[1]) if isinstance(c, (ast.Call, ast.AugAssign, ast.Assign)) for x in ast.walk(c) if isinstance(x, ast.Attribute) and isinstance(x.value, ast.Name) and x.value.id == "self"}
+    walked = {x.attr for lp in ast.walk(pv[1]) if isinstance(lp, (ast.For, ast.ListComp, ast.GeneratorExp)) for x in ast.walk(lp.iter if isinstance(lp, ast.For) else lp.generators[0].iter) if isinstance(x, ast.Attribute) and isinstance(x.value, ast.Name) and x.value.id == "self"}
+    visits_generated = bool(kept & walked)
+    filters = [p_ for p_ in P.passes if p_.cls in ("LineNumberFilterVisitor", "LineZeroFilterVisitor")]
+    appends = [i_ for i_ in P.insertions if i_.method == "append_lines"]
+    if not filters or not appends:
+        ctx.undecided("convert:filter-before-suffix", "filter pass / append_lines not found in convert()", file=COMPILER_REL, line=P.fn.lineno)
+        return
+    late = min(f_.index for f_ in filters) > min(a_.index for a_ in appends)
+    ok = not (visits_generated and late)
+    ctx.ob("convert:filter-before-suffix", ok, "" if ok else f"BasicProg.visit walks {sorted(kept & walked)} (where append_lines keeps the generated dispatcher) and the label filter runs after append_lines: the dispatcher line is `unreferenced` by the user's program, so with -l its label is removed while `ON ERROR GOTO` still names it", file=COMPILER_REL, line=filters[0].line, facts={"visit_walks": sorted(walked), "generated_kept_in": sorted(kept), "filter_after_append": late})
 
 
 @rule("P10b", "ACCUMULATE: a pass that collects facts over the whole program extends its collection in every callback; it never rebinds the collection to what the current statement alone contributes", ["C10", "C09", "C03"], floor=3)
